@@ -336,6 +336,41 @@ pub fn judge_semantic_for(case: &Case, ctx: &mut Ctx, prop: &str) -> Verdict {
             }
         }
     }
+    // order within a trace segment not fixed by the statements (directive values): compare each
+    // segment (creation; between two slot invocations) as a multiset
+    if case.extra["traces_unordered"].as_bool() == Some(true) {
+        let norm = |t: &Value| -> Value {
+            let mut out: Vec<Value> = vec![];
+            let mut seg: Vec<String> = vec![];
+            for e in t.as_array().cloned().unwrap_or_default() {
+                let s = e.as_str().unwrap_or("").to_string();
+                if s.starts_with("slot:") {
+                    seg.sort();
+                    out.extend(seg.drain(..).map(Value::from));
+                    out.push(Value::from(s));
+                } else {
+                    seg.push(s);
+                }
+            }
+            seg.sort();
+            out.extend(seg.drain(..).map(Value::from));
+            Value::Array(out)
+        };
+        if let Some(obj) = results.as_object_mut() {
+            for (_, r) in obj.iter_mut() {
+                if r.get("creation_trace").is_some() {
+                    let v = norm(&r["creation_trace"]);
+                    r["creation_trace"] = v;
+                }
+                if let Some(tr) = r.get_mut("traces").and_then(|t| t.as_object_mut()) {
+                    for (_, t) in tr.iter_mut() {
+                        let v = norm(t);
+                        *t = v;
+                    }
+                }
+            }
+        }
+    }
     let mut keys = vec!["error", "exports"];
     if case.extra["traces_only"].as_bool() == Some(true) {
         // order/count properties: values are the business of C01-C05
